@@ -68,7 +68,9 @@ pub(crate) const MAX_READ_AHEAD_FACTOR: usize = 5;
 pub(crate) const MAX_WRITE_BUFFER_SIZE: usize = 2;
 
 /// Max. length for Noise protocol message payloads.
-pub const MAX_FRAME_LEN: usize = MAX_NOISE_MSG_LEN - NOISE_EXTRA_ENCRYPT_SPACE;
+///
+/// A Noise message is at most 65535 bytes including the 16-byte authentication tag.
+pub const MAX_FRAME_LEN: usize = MAX_NOISE_MSG_LEN - 1 - NOISE_EXTRA_ENCRYPT_SPACE;
 
 /// Logging target for the file.
 const LOG_TARGET: &str = "litep2p::crypto::noise";
